@@ -41,6 +41,8 @@ def _int(x) -> int:
 
 
 def alpha_val(v: Any) -> Dict[str, Any]:
+    if v is None:
+        return {"t": "null", "v": 0, "items": [], "bt": "", "d": 0}
     if isinstance(v, (int, float)) and not isinstance(v, bool):
         return num(_int(v))
     if isinstance(v, list):
@@ -55,6 +57,8 @@ def alpha_val(v: Any) -> Dict[str, Any]:
         except Exception as exc:
             raise Unabstractable(v) from exc
         b = alpha_val(base)
+        if b["t"] == "null":
+            return {"t": "s", "v": 0, "items": [], "bt": "null", "d": d}
         return {"t": "s", "v": b["v"], "items": b["items"], "bt": b["t"], "d": d}
     raise Unabstractable(repr(v))
 
@@ -90,7 +94,9 @@ def gen_program(rng: random.Random, maxlen: int = 8) -> Dict[str, Any]:
     ictx = {}
     for k in FREE:
         r = rng.random()
-        if r < 0.35:
+        if r < 0.04:
+            ictx[k] = {"t": "null", "v": 0, "items": [], "bt": "", "d": 0}
+        elif r < 0.35:
             ictx[k] = num(rng.randint(-5, 9))
         elif r < 0.42:
             ictx[k] = lst([rng.randint(1, 4) for _ in range(rng.randint(1, 3))])
